@@ -101,7 +101,8 @@ pub fn run_plan<T0: Cellish, T1: Cellish>(plan: &mut Plan, gen: Option<(Profile,
         // ---------------- std side (reference)
         let mut pend1: Vec<T1> = Vec::with_capacity(2);
         begin_op(1, dpanic);
-        let rs = catch_unwind(AssertUnwindSafe(|| apply_s(&op, &mut ss, next_id, &mut pend1)));
+        let op_s = if op.name == "vec_push" { op.clone().with("do", if res_b == "ok" { 1 } else { 0 }) } else { op.clone() };
+        let rs = catch_unwind(AssertUnwindSafe(|| apply_s(&op_s, &mut ss, next_id, &mut pend1)));
         let (drops_s, _fired_s) = end_op(1);
         let (res_s, aux_s) = match rs {
             Ok(o) => (o.res, o.aux),
